@@ -19,7 +19,7 @@ for i in range(1,21):
             m=re.match(r'\s*section\s*(\S*)',line)
             if m: sec.append(m.group(1))
             if re.match(r'\s*end\s+\S+',line) and sec and line.split()[1]==sec[-1]: sec.pop()
-            m=re.match(r'\s*(?:@\[[^\]]*\]\s*)?(?:noncomputable\s+)?(theorem|def)\s+([A-Za-z_][A-Za-z0-9_\'.!?]*)',line)
+            m=re.match(r'\s*(?:@\[[^\]]*\]\s*)?(?:noncomputable\s+)?(theorem|def|alias)\s+([A-Za-z_][A-Za-z0-9_\'.!?]*)',line)
             if m and ns and not line.strip().startswith('private'):
                 kind,name=m.group(1),m.group(2)
                 if kind=='def' and name not in ('cx_ring',): continue
